@@ -589,6 +589,21 @@ func TestC14Edges(t *testing.T) {
 			}
 		}
 	}
+	// strings around the 1 MiB frame limit (the value has to be split across frames by the typed layer itself),
+	// in all three modes, between two integers
+	for _, n := range []int{1048568, 1048576, 1100000} {
+		for mode := 0; mode < 3; mode++ {
+			c := Case{AES: mode > 0, KeyOff: mode == 2, Vals: []Val{{T: "int", I: -42}, {T: "string", N: n}, {T: "int64", I: 7}}}
+			v, st := runCase(c)
+			record(c, st)
+			if v != "" && bad < 6 {
+				bad++
+				kit.Violation("C14", v, c)
+				t.Errorf("C14 violated: %s", v)
+			}
+		}
+	}
+	ev.Exhaustive("strings of 3 lengths around the 1 MiB frame limit x {plain, AES, keyed cleartext}")
 	ev.Exhaustive("27 integer boundary values through all four integer types x {plain,AES} x {Put/Get, Code}; powers of two over the whole double exponent range (every 9th in quick, all in thorough)")
 }
 
